@@ -20,6 +20,25 @@ CLAIMS = {
             "before the first). Tie to the code: bit-exact correspondence of the extracted model with "
             "ControlPoints::add/*_point_at on exhaustive small-alphabet and random histories, plus a linear-scan oracle.",
             "§6 C13"),
+    "C11": ("Unbounded theorems (coq/Properties/C11.v): each of the six section parsers equals a table-driven "
+            "specification written from the property text, for every state and line (key table, conversion, field); "
+            "rejected or unknown records leave the state untouched; last valid occurrence wins (generic fold lemma); "
+            "exact acceptance sets of the i32/u8/f32/f64 number parsers (grammar incl. dec2flt exponent saturation, "
+            "limits, NaN); clamp ranges for slider multiplier / tick rate; approach rate follows overall difficulty until "
+            "set; breaks have start <= end; background precedence; all tables and constants pinned against the generated "
+            "ones. Deviations are refuted with witnesses and recorded (D1 first-colon, D10 bookmarks, D14 f32 limit). Tie "
+            "to the code: bit-exact correspondence through the public parse_* functions over every key x value class x "
+            "decoration, numeric stress streams, plus an independent table-driven reference oracle.",
+            "§6 C11"),
+    "C14": ("Unbounded theorems (coq/Properties/C14.v): parse_hit_objects equals a declarative line_spec for all states and "
+            "lines and never panics (index loops of convert_points/convert_path_str modelled with checked arithmetic); "
+            "position truncation, kind precedence, combo offset, forced new combo, repeat cap 9000 and node count, length "
+            "rule, non-negative spinner/hold durations (Flocq comparisons), convert_path_str = structural path_spec by "
+            "induction over tokens, sample table; what a rejected line can leave behind (C06 facts). Recorded deviations: "
+            "D3 (residue of a rejected multi-segment slider), D15 (spinner bit remembered from a circle/slider). Tie to the "
+            "code: bit-exact correspondence through HitObjects::parse_hit_objects on field-wise generated line sequences "
+            "(exhaustive 256x256 type/sound bytes in the thorough tier) plus an independent reference parser.",
+            "§6 C14"),
     "C12": ("Unbounded theorems (coq/Properties/C12.v): the pending-option state machine of parse_timing_points "
             "(push_front/push_back, flush on time change and at the end) equals the run-based legacy_spec written from the "
             "property text, for every mode, defaults and line sequence (induction, invariant 'pending slots = winners of "
